@@ -25,8 +25,11 @@ def run_one(pid: str, tier: str, repo=None) -> int:
         db = ProgramDB(repo or os.environ.get("HTA_REPO", "/repo"))
         chk.analysed["program"] = db.stats()
         mod.run(db, chk)
-        if tier == "thorough" and hasattr(mod, "thorough"):
-            mod.thorough(db, chk)
+        if tier == "thorough":
+            if hasattr(mod, "thorough"):
+                mod.thorough(db, chk)
+            from sa.selftest import thorough as _st
+            _st.run(pid, chk)
     except AnalysisError as e:
         chk.error(str(e))
     except Exception as e:  # a checker crash is never a violation
